@@ -19,7 +19,7 @@
 From Coq Require Import List String Bool Arith Permutation Relations.
 From Verif Require Import Lib.Path Caco.Names Caco.Load Caco.LoadProofs Caco.LoadGen Gen.CacoBuild.
 From Verif Require Import Caco.LoadNames Caco.LoadNamesProofs.
-From Verif Require Import Caco.LoadOutCycle Caco.LoadSession Caco.LoadSessionGen.
+From Verif Require Import Caco.LoadOutCycle Caco.LoadSession Caco.LoadArgs Caco.LoadSessionGen.
 Import ListNotations.
 Local Open Scope string_scope.
 
@@ -265,6 +265,54 @@ Theorem C11_kept_loader_misses_cycle_refuted :
     [CErr [ECycle ["p1/x"; "p1/y"]]; CErr [ECycle ["p1/x"; "p1/y"]]].
 Proof. exact kept_loader_misses_cycle_refuted. Qed.
 Print Assumptions C11_kept_loader_misses_cycle_refuted.
+
+(** ** The arguments of Build are the caller's (Caco/LoadArgs.v)
+
+    A Builder made inside a package directory resolves its targets with
+    [makePath(w, r)] - which is not idempotent ("top" -> "pkg/top" ->
+    "pkg/pkg/top") - into a NEW slice.  Read off the current source: no
+    function of the package assigns to an element of a slice or map parameter,
+    appends to, copies into or sorts a slice parameter ([param_writes] is
+    empty), and [Build] begins with the copying loop. *)
+Theorem C11_params_not_written :
+  params_not_writtenb = true /\ args_policy_of_source = ArgsCopied.
+Proof. exact gen_params_not_written_and_copied. Qed.
+Print Assumptions C11_params_not_written.
+
+Theorem C11_build_does_not_write_targets : forall w slice,
+  snd (build_call args_policy_of_source w slice) = slice.
+Proof. exact source_build_does_not_write_targets. Qed.
+Print Assumptions C11_build_does_not_write_targets.
+
+(** The result of a call is a function of the VALUES passed: the same slice
+    handed to Build any number of times (same or new Builders) gives, each
+    time, the run of the targets it spells. *)
+Theorem C11_same_slice_same_result : forall fs roots kind w slice n held,
+  lrun loader_policy_of_source fs roots kind (same_slice_calls args_policy_of_source w slice n) held =
+  repeat (c11_run fs roots kind (resolve_targets w slice)) n.
+Proof. exact source_same_slice_same_result. Qed.
+Print Assumptions C11_same_slice_same_result.
+
+(** Resolved names written back into the caller's slice: the second call
+    with the same slice loads pkg/pkg/top - the nested package's rules, none of
+    them reachable from the requested target, or an error on a sound graph. *)
+Theorem C11_in_place_changes_targets_refuted :
+  same_slice_calls ArgsInPlace "pkg" ["top"] 3 = [["pkg/top"]; ["pkg/pkg/top"]; ["pkg/pkg/pkg/top"]] /\
+  same_slice_calls ArgsCopied "pkg" ["top"] 3 = [["pkg/top"]; ["pkg/top"]; ["pkg/top"]] /\
+  same_slice_calls ArgsInPlace "pkg" ["//pkg/top"] 2 = [["pkg/top"]; ["pkg/pkg/top"]].
+Proof. exact in_place_changes_targets_refuted. Qed.
+Print Assumptions C11_in_place_changes_targets_refuted.
+
+Theorem C11_in_place_builds_other_rules_refuted :
+  lrun LoaderPerBuild ia_files ["pkg"] (fun _ => KNone) (same_slice_calls ArgsInPlace "pkg" ["top"] 2) [] =
+    [CExec ["pkg/leaf"; "pkg/top"]; CExec ["pkg/pkg/inner"; "pkg/pkg/top"]] /\
+  lrun LoaderPerBuild ia_files ["pkg"] (fun _ => KNone) (same_slice_calls ArgsCopied "pkg" ["top"] 2) [] =
+    [CExec ["pkg/leaf"; "pkg/top"]; CExec ["pkg/leaf"; "pkg/top"]] /\
+  lrun LoaderPerBuild [("pkg", [DRule "pkg/leaf" [] []; DRule "pkg/top" ["pkg/leaf"] []])] ["pkg"]
+       (fun _ => KNone) (same_slice_calls ArgsInPlace "pkg" ["top"] 2) [] =
+    [CExec ["pkg/leaf"; "pkg/top"]; CErr [EStat "pkg/pkg/top"]].
+Proof. exact in_place_builds_other_rules_refuted. Qed.
+Print Assumptions C11_in_place_builds_other_rules_refuted.
 
 (** ** Non-vacuity: concrete workspaces on which the statements bite. *)
 
